@@ -653,6 +653,20 @@ def run(ck):
         ok = ok and nm == sorted(["attrs.get('resname')", 'identifier'])
     ck.ob('PROV-map-names', mp.loc(blk), ok, 'a [ from blocks ] entry names the mapping after its `resname` attribute when it has one (else after the identifier), and only afterwards is the '
           'resname dropped from a modification\'s identifier attributes; the attributes are then stored for the atoms of that identifier', key='PROV-map-names|from-blocks')
+    # ------------------------------------------------------------- .mapping block declarations: the "!" (do not fetch) marker never ends up in a residue name
+    pbl = ck.need(method(mapd, '_parse_blocks'), 'MappingDirector._parse_blocks vanished')
+    ck.analysed(mp, pbl)
+    strips = stmts_with_env(pbl, lambda s_: isinstance(s_, ast.Assign) and u(s_.targets[0]) == 'resname' and u(s_.value) == 'resname[len(self.NO_FETCH_BLOCK):]')
+    ok = len(strips) == 1
+    if ok:
+        ats = [a for a in flow.atoms_of(strips[0][1]) if a[0] == 'truth' and 'startswith(self.NO_FETCH_BLOCK)' in a[1]]
+        ok = len(ats) == 1 and flow.implies(strips[0][1], ('atom', ats[0]))[0]
+        ad = [s_ for s_ in walk_local(pbl) if isinstance(s_, ast.Assign) and u(s_.targets[0]) == 'attrs' and u(s_.value) == "{'resname': resname, 'resid': resid}"]
+        ok = ok and len(ad) == 1 and strips[0][0].lineno < ad[0].lineno
+    blk2 = method(mapd, '_blocks')
+    ok2 = blk2 is not None and 'identifier = identifier[len(self.NO_FETCH_BLOCK):]' in u(blk2) and 'if identifier.startswith(self.NO_FETCH_BLOCK):' in u(blk2) and 'fetch = False' in u(blk2)
+    ck.ob('PROV-map-names', mp.loc(pbl), ok and ok2, 'the shorthand "!NAME" declares residue NAME without fetching its block: the marker is stripped from the residue name the atoms get '
+          '(_parse_blocks) and from the identifier (_blocks), so it names the same mapping as the longhand spelling', key='PROV-map-names|no-fetch-marker')
     prefix_order_table(ck, ff)
     shared.truthy_zero(ck, [FF, ITP, PU, MAP, 'vermouth/map_input.py'])
     ck.assume('token-level grammar, macro substitution results and .map weight arithmetic are not decided')
